@@ -1096,6 +1096,37 @@ func runCase(ctx context.Context, out *vc.Out, caseID int, seed uint64, tier str
 				}
 			}
 		}
+		// `_in` with three distinct values in every order, ordered by the same field in both directions: an index on the
+		// field serves filter and order at once and has to visit the values in key order whatever order they are given in
+		if withTwin {
+			seenLead := map[string]bool{}
+			for _, sp := range specs {
+				f := sp.fields[0].f
+				if seenLead[f] || fieldKinds[f] == "b" {
+					continue
+				}
+				seenLead[f] = true
+				var vs []val
+				for tries := 0; len(vs) < 3 && tries < 40; tries++ {
+					v := genVal(r, f, 0)
+					dup := false
+					for _, x := range vs {
+						dup = dup || x.tok() == v.tok()
+					}
+					if !dup {
+						vs = append(vs, v)
+					}
+				}
+				if len(vs) < 3 {
+					continue
+				}
+				for _, pm := range [][3]int{{0, 1, 2}, {0, 2, 1}, {1, 0, 2}, {1, 2, 0}, {2, 0, 1}, {2, 1, 0}} {
+					for _, desc := range []bool{false, true} {
+						w.run(&query{filter: &filt{op: "in", f: f, vs: []val{vs[pm[0]], vs[pm[1]], vs[pm[2]]}}, order: []okey{{f, desc}}, sel: "docs"})
+					}
+				}
+			}
+		}
 		// grouping by one to three fields (with a filter): the groups and their sizes against the model
 		for i := 0; i < 4 && !w.extreme; i++ {
 			fs := append([]string{}, fieldNames...)
